@@ -274,6 +274,20 @@ func TestVerifC33MutatedFlight13(t *testing.T) {
 				}
 			}
 		}
+		if rapid.IntRange(0, 3).Draw(rt, "ee_unsolicited") == 0 {
+			// well-formed extensions in EncryptedExtensions that the client did not ask for, or that do not belong
+			// there (byte-level mutation of the encrypted flight cannot build these): error or completion, no panic
+			pool := []vfExt{{Type: 42}, {Type: 42, Body: []byte{0, 0, 0, 1}}, {Type: 0}, {Type: 10, Body: []byte{0, 2, 0, 29}}, {Type: 1, Body: []byte{1}},
+				{Type: 28, Body: []byte{0x40, 0}}, {Type: 45, Body: []byte{1, 1}}, {Type: 44, Body: []byte{0, 1, 0}}, {Type: 51, Body: []byte{0, 29, 0, 0}},
+				{Type: 41, Body: []byte{0, 0}}, {Type: 0xfe0d, Body: []byte{0, 0}}, {Type: 0xfe0d, Body: []byte{0, 4, 0xfe, 0x0d, 0, 0}}, {Type: 57}, {Type: 57, Body: []byte{1, 1, 0}},
+				{Type: 16, Body: []byte{0, 3, 2, 'h', '2'}}, {Type: 5}, {Type: 18}, {Type: 19, Body: []byte{0}}, {Type: 20, Body: []byte{2}}, {Type: 43, Body: []byte{3, 4}},
+				{Type: 17513, Body: []byte{}}, {Type: 17613, Body: []byte{0, 1, 'x'}}, {Type: 0xff01, Body: []byte{0}}, {Type: 35}, {Type: 23}}
+			n := rapid.IntRange(1, 3).Draw(rt, "ee_unsolicited_n")
+			for i := 0; i < n; i++ {
+				s.ExtraEEExts = append(s.ExtraEEExts, pool[rapid.IntRange(0, len(pool)-1).Draw(rt, "ee_unsolicited_ext")])
+			}
+			st.Class("encrypted-extensions-with-unsolicited-extensions")
+		}
 		if algs := o.Hello.CertCompAlgs(); len(algs) > 0 && rapid.Bool().Draw(rt, "compress") {
 			alg := algs[rapid.IntRange(0, len(algs)-1).Draw(rt, "compalg")]
 			if alg >= 1 && alg <= 3 {
